@@ -7,6 +7,7 @@ package c19
 import (
 	"bytes"
 	"context"
+	"crypto/sha1"
 	"encoding/json"
 	"errors"
 	"fmt"
@@ -478,13 +479,15 @@ type objState struct {
 	path   string // file path of the sequence object
 	minVal zed.Value
 	seq    string // values in stored order
+	layout string // sig without the vector flag
 }
 
 type branchState struct {
 	name    string
 	chain   []ksuid.KSUID // tip first
 	log     []string      // per commit: author|message|meta|action kinds
-	objects []objState    // sorted by sig
+	objects []objState    // sorted by layout signature
+	content string        // digest of the multiset of all values of the branch
 	err     string
 }
 
@@ -560,6 +563,7 @@ func (r *runner) inspectBranch(si int, engine storage.Engine, pool *lake.Pool, t
 		acts []string
 	}
 	byCommit := map[ksuid.KSUID]*centry{}
+	addedBy := map[ksuid.KSUID][]ksuid.KSUID{} // object id -> commits with an Add action for it
 	var orderIDs []ksuid.KSUID
 	get := func(id ksuid.KSUID) *centry {
 		e := byCommit[id]
@@ -593,6 +597,7 @@ func (r *runner) inspectBranch(si int, engine storage.Engine, pool *lake.Pool, t
 			get(a.ID).head = fmt.Sprintf("%s|%s|%s", a.Author, a.Message, meta)
 		case *commits.Add:
 			get(a.Commit).acts = append(get(a.Commit).acts, "add")
+			addedBy[a.Object.ID] = append(addedBy[a.Object.ID], a.Commit)
 		case *commits.Delete:
 			get(a.Commit).acts = append(get(a.Commit).acts, "del")
 		case *commits.AddVector:
@@ -631,6 +636,11 @@ func (r *runner) inspectBranch(si int, engine storage.Engine, pool *lake.Pool, t
 	if err != nil {
 		return err
 	}
+	fromRoot := map[ksuid.KSUID]int{} // commit -> position in the chain counted from the root
+	for i, id := range bs.chain {
+		fromRoot[id] = len(bs.chain) - 1 - i
+	}
+	var allKeys []string
 	for _, o := range snap.SelectAll() {
 		os := objState{id: o.ID, count: o.Count, min: zson.FormatValue(o.Min), max: zson.FormatValue(o.Max), vector: snap.HasVector(o.ID), minVal: o.Min.Copy()}
 		uri := o.SequenceURI(pool.DataPath)
@@ -653,10 +663,24 @@ func (r *runner) inspectBranch(si int, engine storage.Engine, pool *lake.Pool, t
 		}
 		os.seq = strings.Join(keys, "\xff")
 		sort.Strings(keys)
-		os.sig = fmt.Sprintf("count=%d min=%s max=%s size=%d vector=%v %s values=%x", o.Count, os.min, os.max, o.Size, os.vector, unreadable, strings.Join(keys, "\xff"))
+		allKeys = append(allKeys, keys...)
+		// Objects with identical content are told apart by the commit that added them (position in the chain),
+		// so that "the i-th object" denotes the same object of the same load on both lakes.
+		born := -1
+		for _, c := range addedBy[o.ID] {
+			if n, ok := fromRoot[c]; ok && n > born {
+				born = n
+			}
+		}
+		// (the byte size is not part of the signature: with equal values it can only differ through tie order)
+		os.layout = fmt.Sprintf("count=%d min=%s max=%s born=%d %s values=%x", o.Count, os.min, os.max, born, unreadable, strings.Join(keys, "\xff"))
+		os.sig = fmt.Sprintf("vector=%v %s", os.vector, os.layout)
 		bs.objects = append(bs.objects, os)
 	}
-	sort.SliceStable(bs.objects, func(i, j int) bool { return bs.objects[i].sig < bs.objects[j].sig })
+	sort.SliceStable(bs.objects, func(i, j int) bool { return bs.objects[i].layout < bs.objects[j].layout })
+	sort.Strings(allKeys)
+	h := sha1.Sum([]byte(strings.Join(allKeys, "\xff")))
+	bs.content = fmt.Sprintf("%d values %x", len(allKeys), h[:8])
 	return nil
 }
 
@@ -688,47 +712,89 @@ func short(s string) string {
 	return s
 }
 
-// diffStates returns "" when both lakes hold the same content (ids and timestamps aside).
-func diffStates(a, b *lakeState) string { return diffStatesNote(a, b, nil) }
+// stateDiff is the result of comparing the two lakes (ids and timestamps aside).
+type stateDiff struct {
+	content string // pools, configs, branches, commit chains or branch contents (value multisets) differ
+	vectors string // same objects, but the has-vector flags differ
+	layout  string // same branch contents, partitioned differently into objects
+}
 
-func diffStatesNote(a, b *lakeState, note func(string)) string {
+func (d stateDiff) any() string {
+	if d.content != "" {
+		return d.content
+	}
+	if d.vectors != "" {
+		return d.vectors
+	}
+	return d.layout
+}
+
+func diffStates(a, b *lakeState) string { return diffStatesNote(a, b, nil).any() }
+
+func diffStatesNote(a, b *lakeState, note func(string)) (d stateDiff) {
 	if len(a.pools) != len(b.pools) {
-		return fmt.Sprintf("direct lake has %d pools, served lake has %d", len(a.pools), len(b.pools))
+		d.content = fmt.Sprintf("direct lake has %d pools, served lake has %d", len(a.pools), len(b.pools))
+		return d
 	}
 	for i := range a.pools {
 		pa, pb := a.pools[i], b.pools[i]
 		if pa.name != pb.name {
-			return fmt.Sprintf("pool names differ: direct %q, served %q", pa.name, pb.name)
+			d.content = fmt.Sprintf("pool names differ: direct %q, served %q", pa.name, pb.name)
+			return d
 		}
 		if pa.config != pb.config {
-			return fmt.Sprintf("pool %s config differs: direct %s, served %s", pa.name, pa.config, pb.config)
+			d.content = fmt.Sprintf("pool %s config differs: direct %s, served %s", pa.name, pa.config, pb.config)
+			return d
 		}
 		if len(pa.branches) != len(pb.branches) {
-			return fmt.Sprintf("pool %s: direct has %d branches, served has %d", pa.name, len(pa.branches), len(pb.branches))
+			d.content = fmt.Sprintf("pool %s: direct has %d branches, served has %d", pa.name, len(pa.branches), len(pb.branches))
+			return d
 		}
 		for j := range pa.branches {
 			ba, bb := pa.branches[j], pb.branches[j]
 			if ba.name != bb.name {
-				return fmt.Sprintf("pool %s: branch names differ: direct %q, served %q", pa.name, ba.name, bb.name)
+				d.content = fmt.Sprintf("pool %s: branch names differ: direct %q, served %q", pa.name, ba.name, bb.name)
+				return d
 			}
 			where := pa.name + "@" + ba.name
 			if ba.err != bb.err {
-				return fmt.Sprintf("%s: direct readable=%v, served readable=%v", where, ba.err == "", bb.err == "")
+				d.content = fmt.Sprintf("%s: direct readable=%v, served readable=%v", where, ba.err == "", bb.err == "")
+				return d
 			}
 			if len(ba.log) != len(bb.log) {
-				return fmt.Sprintf("%s: direct has %d commits, served has %d (direct %q, served %q)", where, len(ba.log), len(bb.log), ba.log, bb.log)
+				d.content = fmt.Sprintf("%s: direct has %d commits, served has %d (direct %q, served %q)", where, len(ba.log), len(bb.log), ba.log, bb.log)
+				return d
 			}
 			for k := range ba.log {
 				if ba.log[k] != bb.log[k] {
-					return fmt.Sprintf("%s: commit %d from the tip differs: direct %q, served %q", where, k, ba.log[k], bb.log[k])
+					d.content = fmt.Sprintf("%s: commit %d from the tip differs: direct %q, served %q", where, k, ba.log[k], bb.log[k])
+					return d
 				}
 			}
+			if ba.content != bb.content {
+				d.content = fmt.Sprintf("%s: branch contents differ: direct holds %s in %d objects, served holds %s in %d objects", where, ba.content, len(ba.objects), bb.content, len(bb.objects))
+				return d
+			}
+			if d.layout != "" || d.vectors != "" {
+				continue
+			}
 			if len(ba.objects) != len(bb.objects) {
-				return fmt.Sprintf("%s: direct has %d objects, served has %d", where, len(ba.objects), len(bb.objects))
+				d.layout = fmt.Sprintf("%s: same values, but direct has %d objects, served has %d", where, len(ba.objects), len(bb.objects))
+				continue
 			}
 			for k := range ba.objects {
-				if ba.objects[k].sig != bb.objects[k].sig {
-					return fmt.Sprintf("%s: object %d (in content order) differs: direct {%s}, served {%s}", where, k, short(ba.objects[k].sig), short(bb.objects[k].sig))
+				if ba.objects[k].layout != bb.objects[k].layout {
+					d.layout = fmt.Sprintf("%s: same values, but object %d (in content order) differs: direct {%s}, served {%s}", where, k, short(ba.objects[k].layout), short(bb.objects[k].layout))
+					break
+				}
+			}
+			if d.layout != "" {
+				continue
+			}
+			for k := range ba.objects {
+				if ba.objects[k].vector != bb.objects[k].vector {
+					d.vectors = fmt.Sprintf("%s: object %d {%s}: has vectors directly: %v, served: %v", where, k, short(ba.objects[k].layout), ba.objects[k].vector, bb.objects[k].vector)
+					break
 				}
 				if note != nil && ba.objects[k].seq != bb.objects[k].seq {
 					note("state:object-tie-order-differs")
@@ -736,7 +802,7 @@ func diffStatesNote(a, b *lakeState, note func(string)) string {
 			}
 		}
 	}
-	return ""
+	return d
 }
 
 func (st *lakeState) branch(pool, branch string) *branchState {
@@ -1190,48 +1256,67 @@ func (r *runner) compareRaw(step int, what string, head *lakeparse.Commitish, te
 	if inBand != "" || res.statusErr != "" {
 		return fail("C19/query/raw/error-only-remote", "step %d (%s): %q (%s) succeeds directly but the service reports in-band %q / status %q", step, what, text, tag, inBand, res.statusErr)
 	}
-	if decodable {
-		if derr != nil {
-			return fail("C19/query/raw/undecodable", "step %d (%s): %q (%s): response body cannot be decoded: %v; body %q", step, what, text, tag, derr, trunc(res.body))
-		}
-		if diff := oracle.Same(d.vals, vals); diff != "" {
-			if ordered {
-				if od, _ := sameOrdered(d.vals, vals); od != "" {
-					return fail("C19/query/raw/output-differs", "step %d (%s): %q (%s): decoded response differs from the direct result: %s", step, what, text, tag, od)
-				}
-				r.o.Label("query:tie-reordered")
-				return nil
-			}
-			if oracle.SameMultiset(d.vals, vals) != "" {
-				return fail("C19/query/raw/output-differs", "step %d (%s): %q (%s): decoded response differs from the direct result: %s", step, what, text, tag, diff)
-			}
-			r.o.Label("query:unordered-reordered")
+	if decodable && derr != nil {
+		return fail("C19/query/raw/undecodable", "step %d (%s): %q (%s): response body cannot be decoded: %v; body %q", step, what, text, tag, derr, trunc(res.body))
+	}
+	// compareVals compares decoded result values (sequence if the program defines an order, up to sort ties;
+	// else multiset)
+	compareVals := func(wantVals, gotVals []zed.Value) *vt.Failure {
+		diff := oracle.Same(wantVals, gotVals)
+		if diff == "" {
 			return nil
 		}
+		if ordered {
+			if od, _ := sameOrdered(wantVals, gotVals); od != "" {
+				return fail("C19/query/raw/output-differs", "step %d (%s): %q (%s): decoded response differs from the direct result: %s", step, what, text, tag, od)
+			}
+			r.o.Label("query:tie-reordered")
+			return nil
+		}
+		if oracle.SameMultiset(wantVals, gotVals) != "" {
+			return fail("C19/query/raw/output-differs", "step %d (%s): %q (%s): decoded response differs from the direct result: %s", step, what, text, tag, diff)
+		}
+		r.o.Label("query:unordered-reordered")
+		return nil
 	}
 	got := res.body
 	switch {
 	case raw.Format == "zng" && raw.Ctrl:
-		return nil // framing depends on interleaved control frames; values were compared above
+		// framing depends on the interleaved control frames, so bytes cannot be compared; ZNG is lossless, so the
+		// decoded values are compared with the direct values
+		return compareVals(d.vals, vals)
 	case raw.Format == "zjson" && raw.Ctrl:
 		got, _, _ = stripZJSONControl(res.body)
 	}
-	if !bytes.Equal(got, want) {
-		if sortedLines(raw.Format, got) == sortedLines(raw.Format, want) {
-			if !ordered {
-				r.o.Label("query:unordered-reordered")
-				return nil
-			}
-			// ordered program, lossy format: a different line order is legitimate only among values the sort
-			// comparator considers equal (see sameOrdered)
-			if hasTies(d.vals) || strings.Contains(text, "head") || strings.Contains(text, "tail") {
-				r.o.Label("query:tie-reordered")
-				return nil
-			}
-		}
-		return fail("C19/query/raw/bytes-differ", "step %d (%s): %q (%s): response bytes differ from the same formatter over the direct result:\n got  %q\n want %q", step, what, text, tag, trunc(got), trunc(want))
+	if bytes.Equal(got, want) {
+		return nil
 	}
-	return nil
+	if decodable {
+		// Not byte-identical: legitimate if only the order differs where the program leaves it open.  Both byte
+		// strings are decoded with the same reader, so what the format itself cannot represent (e.g. the sign of
+		// -0. in ZJSON) cancels out.
+		wantVals, _, _, werr := decodeRaw(r.ctx, raw.Format, want)
+		if werr != nil {
+			return fail("C19/harness/reference-undecodable", "step %d: reference %s rendering cannot be decoded: %v", step, raw.Format, werr)
+		}
+		if oracle.Same(wantVals, vals) == "" {
+			return fail("C19/query/raw/bytes-differ", "step %d (%s): %q (%s): response decodes to the same values but its bytes differ from the same formatter over the direct result:\n got  %q\n want %q", step, what, text, tag, trunc(got), trunc(want))
+		}
+		return compareVals(wantVals, vals)
+	}
+	if sortedLines(raw.Format, got) == sortedLines(raw.Format, want) {
+		if !ordered {
+			r.o.Label("query:unordered-reordered")
+			return nil
+		}
+		// ordered program, lossy format: a different line order is legitimate only among values the sort
+		// comparator considers equal (see sameOrdered)
+		if hasTies(d.vals) || strings.Contains(text, "head") || strings.Contains(text, "tail") {
+			r.o.Label("query:tie-reordered")
+			return nil
+		}
+	}
+	return fail("C19/query/raw/bytes-differ", "step %d (%s): %q (%s): response bytes differ from the same formatter over the direct result:\n got  %q\n want %q", step, what, text, tag, trunc(got), trunc(want))
 }
 
 func trunc(b []byte) string {
@@ -2014,29 +2099,39 @@ func runCase(c Case) *vt.Outcome {
 			o.Label("state:unreadable-both")
 			break
 		}
-		if d := diffStatesNote(after[0], after[1], func(l string) { o.Label(l) }); d != "" {
-			if op.Kind == "load" && op.Bad == "reader" {
-				// classify: did the service commit the values delivered before the reader failed?
-				if f := r.classifyReaderPrefix(i, op, before, after, d); f != nil {
-					o.Fail = f
-					return o
-				}
-				// re-inspect after re-synchronisation
-				for si := 0; si < 2; si++ {
-					after[si], ierr[si] = r.inspect(si)
-					if ierr[si] != nil {
-						o.Fail = fail("C19/state/unreadable-one-side", "step %d: %v", i, ierr[si])
-						return o
-					}
-				}
-				if d := diffStates(after[0], after[1]); d != "" {
-					o.Fail = fail("C19/state/differs/load", "step %d (load from failing reader, after re-synchronisation): %s", i, d)
-					return o
-				}
-			} else {
-				o.Fail = fail("C19/state/differs/"+op.Kind, "step %d (%s %+v): lake contents differ: %s", i, op.Kind, op, d)
+		sd := diffStatesNote(after[0], after[1], func(l string) { o.Label(l) })
+		if sd.content != "" && op.Kind == "load" && op.Bad == "reader" {
+			// classify: did the service commit the values delivered before the reader failed?
+			if f := r.classifyReaderPrefix(i, op, before, after, sd.content); f != nil {
+				o.Fail = f
 				return o
 			}
+			// re-inspect after re-synchronisation
+			for si := 0; si < 2; si++ {
+				after[si], ierr[si] = r.inspect(si)
+				if ierr[si] != nil {
+					o.Fail = fail("C19/state/unreadable-one-side", "step %d: %v", i, ierr[si])
+					return o
+				}
+			}
+			sd = diffStatesNote(after[0], after[1], nil)
+		}
+		if sd.content != "" {
+			o.Fail = fail("C19/state/differs/"+op.Kind, "step %d (%s %+v): lake contents differ: %s", i, op.Kind, op, sd.content)
+			return o
+		}
+		if sd.vectors != "" {
+			o.Fail = fail("C19/state/vectors-differ/"+op.Kind, "step %d (%s %+v): %s", i, op.Kind, op, sd.vectors)
+			return o
+		}
+		if sd.layout != "" {
+			// How a rewrite (delete-where, compact, a load split by the threshold) partitions values into objects is
+			// not a function of the branch content: on pools whose objects all tie on min/max (e.g. key `this`) it
+			// varies from run to run on one lake.  Contents are equal; object ordinals no longer denote the same
+			// objects on both sides, so the history ends here.
+			o.Label("state:layout-differs:" + op.Kind)
+			r.debugf("step %d: layout differs: %s", i, sd.layout)
+			break
 		}
 		before = after
 	}
@@ -2150,6 +2245,18 @@ func literalCases() map[string]struct {
 	add("regress-late-error-csv-formatter", "", "", 1,
 		pool, Op{Kind: "load", Via: "api", Batch: 1},
 		Op{Kind: "query", Query: "from {P}@{B} | sort this", Ordered: true, Raws: all[8:]})
+	add("regress-zjson-negative-zero", "", "", 1,
+		pool, Op{Kind: "load", Via: "csv"},
+		Op{Kind: "query", Query: "from {P}@{B} | yield {k:k,s:s,q:v/(v-1)} | sort this", Ordered: true, Raws: all})
+	add("regress-names-special-characters", "", "", 1,
+		Op{Kind: "createpool", Key: "k", Name: 2}, Op{Kind: "load", Via: "api"}, Op{Kind: "branch", Name: 4}, Op{Kind: "load", Via: "zson", Branch: 1, Batch: 2},
+		Op{Kind: "merge", Branch: 1, Other: 0}, Op{Kind: "tip", Branch: 1}, Op{Kind: "poolid"}, Op{Kind: "vacuum", Dry: true},
+		Op{Kind: "query", Query: "from {P}@{B} | sort this", Ordered: true, Branch: 1, Raws: all[:4]}, Op{Kind: "renamepool", Name: 8}, Op{Kind: "poolid"},
+		Op{Kind: "query", Query: "from :pools | cut name", Raws: all[2:4]})
+	add("known-C19-path-param-plus-sign", sigPlus, "known", 1,
+		Op{Kind: "createpool", Key: "k"}, Op{Kind: "branch", Name: 10}, Op{Kind: "load", Via: "api", Branch: 1})
+	add("known-C19-empty-pool-name", sigEmptyPool, "known", 1,
+		Op{Kind: "createpool", Key: "k"}, Op{Kind: "createpool", Key: "k", Name: -1}, Op{Kind: "query", Query: "from :pools | cut name", Raws: all[2:4]})
 	add("regress-history-merge-revert-vacuum", "", "", 0,
 		pool, Op{Kind: "load", Via: "api"}, Op{Kind: "branch"}, Op{Kind: "load", Via: "zng", Branch: 1, Batch: 2}, Op{Kind: "merge", Branch: 1, Other: 0},
 		Op{Kind: "delete", Pick: []int{0}}, Op{Kind: "revert", At: 0}, Op{Kind: "deletewhere", Pred: "k >= 2"}, Op{Kind: "compact", Pick: []int{0, 1}, Vectors: true},
